@@ -333,7 +333,7 @@ fn run_cache(ops: &[Op], all_steps: bool, mut trace: Option<&mut Vec<String>>) -
                         info.expirations += 1;
                         false
                     }
-                    Some(p) => { let e = m.entries.remove(p); m.entries.push(e); true }
+                    Some(_) => true,
                 };
                 if got != exp {
                     return Err(format!("contains_key returned {got}, expected {exp}"));
